@@ -7,8 +7,12 @@ package modules
 // Starting managed work only spawns a goroutine: under the sequential semantics of a
 // single function (A-seq) it has no effect on the caller's state.
 //@ func (*Module).StartLowPriorityMicroTask
-//@   trusted
 //@   pure
+//@   ghost var inc int32 = 0
+//@   ghost var spawned int = 0
+//@   at optional call atomic.AddInt32 ghost inc = inc + arg1
+//@   at go ghost spawned = spawned + 1
+//@   ensures inc == 0 && spawned == 1
 
 // ---- C06: a panic in managed code is contained, reported and leaves the accounting intact
 
@@ -409,6 +413,8 @@ package modules
 //@   nopanic off
 //@   modifies *
 //@   ghost var runs int = 0
+//@   ghost var inc int32 = 0
+//@   at optional call atomic.AddInt32 ghost inc = inc + arg1
 //@   ghost var clear int = 0
 //@   ghost var inner error = nil
 //@   at call getMediumPriorityClearance assert arg0 > 0
@@ -416,7 +422,7 @@ package modules
 //@   at call (*Module).runMicroTask assert arg0 == m && arg2 == fn && clear == 1
 //@   at call (*Module).runMicroTask ghost runs = runs + 1
 //@   at after (*Module).runMicroTask ghost inner = ret0
-//@   ensures m != nil ==> runs == 1 && r0 == inner
+//@   ensures m != nil ==> runs == 1 && r0 == inner && inc == 0
 //@   ensures m == nil ==> r0 != nil && runs == 0 && clear == 0
 
 //@ func (*Module).RunLowPriorityMicroTask
@@ -424,6 +430,8 @@ package modules
 //@   nopanic off
 //@   modifies *
 //@   ghost var runs int = 0
+//@   ghost var inc int32 = 0
+//@   at optional call atomic.AddInt32 ghost inc = inc + arg1
 //@   ghost var clear int = 0
 //@   ghost var inner error = nil
 //@   at call getLowPriorityClearance assert arg0 > 0
@@ -431,7 +439,7 @@ package modules
 //@   at call (*Module).runMicroTask assert arg0 == m && arg2 == fn && clear == 1
 //@   at call (*Module).runMicroTask ghost runs = runs + 1
 //@   at after (*Module).runMicroTask ghost inner = ret0
-//@   ensures m != nil ==> runs == 1 && r0 == inner
+//@   ensures m != nil ==> runs == 1 && r0 == inner && inc == 0
 //@   ensures m == nil ==> r0 != nil && runs == 0 && clear == 0
 
 // signal variants: +1 for the module; the returned done function concludes at most once
@@ -470,11 +478,13 @@ package modules
 //@   nopanic off
 //@   modifies *
 //@   ghost var clear int = 0
+//@   ghost var inc int32 = 0
+//@   at optional call atomic.AddInt32 ghost inc = inc + arg1
 //@   ghost var sig int = 0
 //@   at call getMediumPriorityClearance ghost clear = clear + 1
 //@   at call (*Module).signalMicroTask assert clear == 1
 //@   at call (*Module).signalMicroTask ghost sig = sig + 1
-//@   ensures m != nil ==> sig == 1
+//@   ensures m != nil ==> sig == 1 && inc == 0
 //@   ensures m == nil ==> clear == 0 && sig == 0 && done == nil
 
 //@ func (*Module).SignalLowPriorityMicroTask
@@ -482,9 +492,59 @@ package modules
 //@   nopanic off
 //@   modifies *
 //@   ghost var clear int = 0
+//@   ghost var inc int32 = 0
+//@   at optional call atomic.AddInt32 ghost inc = inc + arg1
 //@   ghost var sig int = 0
 //@   at call getLowPriorityClearance ghost clear = clear + 1
 //@   at call (*Module).signalMicroTask assert clear == 1
 //@   at call (*Module).signalMicroTask ghost sig = sig + 1
-//@   ensures m != nil ==> sig == 1
+//@   ensures m != nil ==> sig == 1 && inc == 0
 //@   ensures m == nil ==> clear == 0 && sig == 0 && done == nil
+
+// Start variants: they only spawn one goroutine that runs the matching blocking variant once
+// with the same name and function; they add nothing to any counter themselves
+//@ func (*Module).StartHighPriorityMicroTask
+//@   pure
+//@   ghost var inc int32 = 0
+//@   ghost var spawned int = 0
+//@   at optional call atomic.AddInt32 ghost inc = inc + arg1
+//@   at go ghost spawned = spawned + 1
+//@   ensures inc == 0 && spawned == 1
+
+//@ func (*Module).StartMicroTask
+//@   pure
+//@   ghost var inc int32 = 0
+//@   ghost var spawned int = 0
+//@   at optional call atomic.AddInt32 ghost inc = inc + arg1
+//@   at go ghost spawned = spawned + 1
+//@   ensures inc == 0 && spawned == 1
+
+//@ func (*Module).StartHighPriorityMicroTask$1
+//@   nopanic off
+//@   modifies *
+//@   ghost var runs int = 0
+//@   ghost var inc int32 = 0
+//@   at optional call atomic.AddInt32 ghost inc = inc + arg1
+//@   at call (*Module).RunHighPriorityMicroTask assert arg0 == m && arg1 == name && arg2 == fn
+//@   at call (*Module).RunHighPriorityMicroTask ghost runs = runs + 1
+//@   ensures runs == 1 && inc == 0
+
+//@ func (*Module).StartMicroTask$1
+//@   nopanic off
+//@   modifies *
+//@   ghost var runs int = 0
+//@   ghost var inc int32 = 0
+//@   at optional call atomic.AddInt32 ghost inc = inc + arg1
+//@   at call (*Module).RunMicroTask assert arg0 == m && arg1 == name && arg2 == maxDelay && arg3 == fn
+//@   at call (*Module).RunMicroTask ghost runs = runs + 1
+//@   ensures runs == 1 && inc == 0
+
+//@ func (*Module).StartLowPriorityMicroTask$1
+//@   nopanic off
+//@   modifies *
+//@   ghost var runs int = 0
+//@   ghost var inc int32 = 0
+//@   at optional call atomic.AddInt32 ghost inc = inc + arg1
+//@   at call (*Module).RunLowPriorityMicroTask assert arg0 == m && arg1 == name && arg2 == maxDelay && arg3 == fn
+//@   at call (*Module).RunLowPriorityMicroTask ghost runs = runs + 1
+//@   ensures runs == 1 && inc == 0
